@@ -112,3 +112,41 @@ def run_mode(ctx, res, mode):
 
 def run(ctx, res):
     run_mode(ctx, res, "C01")
+
+
+def selftest_mode(ctx, mode):
+    """Binding demonstration: corrupt the recorded result type; C01: a nullable member loses `| null`; C02: a member type becomes unknown."""
+    import copy
+    vlib.build_harness()
+    vlib.build_cli()
+    cases = [make_case(ctx, i, False) for i in range(8)]
+    vlib.write_ndjson(ctx.path("cases.ndjson"), cases)
+    vlib.run_harness(["typegen", vlib.CLI_BIN, ctx.path("cases.ndjson"), ctx.path("events.ndjson"), ctx.path("proj"), "4"])
+    muts = []
+    for e in vlib.read_ndjson(ctx.path("events.ndjson")):
+        a = copy.deepcopy(e)
+        st = [x for x in a["opTs"][0]["stmts"] if x["k"] == "type" and x["name"] == "OpResult"]
+        if not st:
+            continue
+        if mode == "C01":
+            hit = c10.corrupt_first(st, lambda t: t["k"] == "union" and len(t["ts"]) == 2 and any(x["k"] == "kw" and x["n"] == "null" for x in t["ts"]),
+                                    lambda t: t.__setitem__("ts", [x for x in t["ts"] if not (x["k"] == "kw" and x["n"] == "null")] * 2))
+        else:
+            hit = c10.corrupt_first(st, lambda t: t["k"] == "obj" and any(f["t"]["k"] in ("ref", "union") and not f["opt"] for f in t["fs"]),
+                                    lambda t: [f for f in t["fs"] if f["t"]["k"] in ("ref", "union") and not f["opt"]][0].__setitem__("t", {"k": "kw", "n": "unknown"}))
+        if hit:
+            a["id"] = "mut%d" % len(muts)
+            muts.append(a)
+        if len(muts) == 3:
+            break
+    o = vlib.validate_trace("Trace_C01", "Trace_C01.cfg", muts, workdir=ctx.work, nshards=1, extra_env={"MODE": mode})
+    want = "response-not-admitted" if mode == "C01" else "non-response-admitted"
+    rejected = {i["id"] for i in o.items if i["cls"] == want}
+    ok = len(muts) == 3 and len(rejected) >= 2
+    print("SELFTEST %s: %d corrupted result types, %d rejected as %s -> %s" % (mode, len(muts), len(rejected), want, "ok" if ok else "FAILED"))
+    ctx.cleanup()
+    return 0 if ok else 2
+
+
+def selftest(ctx):
+    return selftest_mode(ctx, "C01")
